@@ -44,6 +44,13 @@ type Heat float64
 type Label string
 type Title string
 
+type IntSlice []int
+type IntArr [3]int
+type StrMap map[string]int
+type IntChan chan int
+type IntFn func(int) int
+type Flag bool
+
 type Point struct {
 	X, Y int
 	Tag  string
@@ -94,6 +101,53 @@ var names = []string{"a", "b", "c"}
 var ages = map[string]int{"x": 1, "y": 2}
 var origin = Point{1, 2, "o"}
 var unit = Rect{1, 1}
+
+// pool begin (one package-level variable per type class; used as replacement operands by the
+// type-class sweep, never mutated themselves)
+var zInt int = 1
+var zInt8 int8 = 3
+var zUint uint = 3
+var zUint8 uint8 = 3
+var zFloat float64 = 1.5
+var zFloat32 float32 = 1.5
+var zCplx complex128 = complex(1, 2)
+var zStr string = "zs"
+var zBool bool = true
+var zRune rune = 'x'
+var zArr [3]int = [3]int{1, 2, 3}
+var zPArr *[3]int = &zArr
+var zSl []int = []int{1, 2, 3}
+var zPSl *[]int = &zSl
+var zStrs []string = []string{"p", "q"}
+var zBytes []byte = []byte("by")
+var zMap map[string]int = map[string]int{"k": 1}
+var zPMap *map[string]int = &zMap
+var zPStr *string = &zStr
+var zCh chan int = make(chan int, 8)
+var zRo <-chan int = zCh
+var zSo chan<- int = zCh
+var zPCh *chan int = &zCh
+var zFn func(int) int = func(x int) int { return x }
+var zSt Point = Point{1, 2, "z"}
+var zPSt *Point = &zSt
+var zIf Shape = Rect{1, 1}
+var zEf interface{} = 1
+var zPInt *int = &zInt
+var zErr error
+var zNInt MyInt = 3
+var zNFloat Temp = 1.5
+var zNStr Label = "zl"
+var zNBool Flag = true
+var zNSl IntSlice = IntSlice{1, 2, 3}
+var zPNSl *IntSlice = &zNSl
+var zNArr IntArr = IntArr{1, 2, 3}
+var zNMap StrMap = StrMap{"k": 1}
+var zNCh IntChan = make(IntChan, 2)
+var zNFn IntFn = func(x int) int { return x }
+
+func sink(v ...interface{}) {}
+
+// pool end
 
 func mark(s string) int { println("MARK", s); return 1 }
 
